@@ -14,6 +14,8 @@ if VERIF_DIR not in sys.path:
 from symx import load, explore  # noqa: E402
 
 EXIT_OK, EXIT_VIOLATION, EXIT_HARNESS = 0, 1, 2
+if hasattr(sys, "set_int_max_str_digits"):
+    sys.set_int_max_str_digits(0)       # solver models may contain very long numerals
 
 
 def known_findings():
